@@ -1,6 +1,11 @@
 package cache
 
-import "time"
+import (
+	"context"
+	"time"
+
+	"reservoir/utils/duration"
+)
 
 // C14(A): lock-discipline premises, checked on every path of every single operation from a
 // valid state with an arbitrary subset of shard locks (and the map lock) held by others:
@@ -190,3 +195,63 @@ func lockLeakInterleaved(mem *MemoryCache[vmeta], file *FileCache[vmeta]) {
 
 func HarnessLockLeakInterleavedMem()  { lockLeakInterleaved(newMem(symRange(1, 2), 1<<30), nil) }
 func HarnessLockLeakInterleavedFile() { lockLeakInterleaved(nil, newFile(symRange(1, 2), 1<<30)) }
+
+// HarnessStopNeverBlocks: "stopping the cache never blocks".  The cache (either backend) is
+// started with a live or an already cancelled context; the janitor loop is run (it exits on a
+// cancelled context, otherwise waits) or not yet scheduled; up to three interval / limit
+// changes arrive, each with its listener goroutines run at once or left for later; then the
+// cache is destroyed.  Destroy returns in every such history, the goroutines scheduled after
+// it do not panic, and a second Destroy is harmless.
+func HarnessStopNeverBlocks() {
+	resetMetrics()
+	vSetSysMem(1 << 40)
+	cfg := newCfg(1 << 30)
+	ctx := context.Background()
+	cancelled := symChoice(2) == 1
+	if cancelled {
+		ctx = vCancelledCtx()
+	}
+	var destroy func()
+	if symChoice(2) == 0 {
+		c := NewMemoryCache[vmeta](cfg, 100, 1<<30, time.Hour, 2, ctx)
+		destroy = c.Destroy
+	} else {
+		c := NewFileCache[vmeta](cfg, "var/vcache", 1<<30, time.Hour, 2, ctx)
+		destroy = c.Destroy
+	}
+	vAssert(vPendingCount() == 1, "c14.janitor-goroutine-not-started")
+	if symChoice(2) == 1 {
+		vRunPendingAt(0) // the janitor loop: returns if the context is cancelled, else waits
+		if cancelled {
+			vReach("janitor-exited-before-stop")
+		}
+	}
+	n := int(vParam("changes", 2))
+	for i := 0; i < n; i++ {
+		switch symChoice(3) {
+		case 0:
+			cfg.Cache.CleanupInterval.Stage(duration.Duration(time.Duration(i+1) * time.Minute))
+			cfg.Cache.CleanupInterval.CommitStaged()
+			vReach("interval-change")
+		case 1:
+			cfg.Cache.MaxCacheSize.Stage(bytesizeOf(int64(i+1) << 20))
+			cfg.Cache.MaxCacheSize.CommitStaged()
+			vReach("limit-change")
+		case 2:
+			continue
+		}
+		if symChoice(2) == 1 {
+			vRunPending() // listeners (and a not yet scheduled janitor loop) run now
+		}
+	}
+	blocked := vBlocks(destroy)
+	vAssert(!blocked, "c14.destroy-blocks")
+	if blocked {
+		return
+	}
+	vReach("destroyed")
+	late := vPanics(func() { vRunPending() }) // whatever was still queued is scheduled after the stop
+	vAssert(!late, "c14.goroutine-panics-after-stop")
+	again := vPanics(func() { blocked = vBlocks(destroy) })
+	vAssert(!again && !blocked, "c14.second-destroy-panics-or-blocks")
+}
